@@ -340,6 +340,14 @@ impl Exp {
         }
     }
 
+    /// The form the linearizer works on: constant sub-expressions are folded
+    /// first, so that a factor spelled `(1 - 1)` or `(3 - 2)` is the number it
+    /// stands for before products are distributed over it, then the
+    /// expression is flattened and simplified.
+    pub(crate) fn normal_form(self) -> Exp {
+        self.simplify().flatten().simplify()
+    }
+
     /// Flattens nested expressions by applying distributive properties.
     ///
     /// Applies transformations like:
@@ -506,15 +514,24 @@ fn simplify_logic_nary(exps: &[Exp], is_and: bool) -> Exp {
             (_, exp) => flattened.push(exp),
         }
     }
+    // a deciding constant (false in an `and`, true in an `or`) only absorbs the
+    // other operands when none of them hides a division by zero or by a
+    // non-constant, which must stay visible to be diagnosed
+    let absorbs = !flattened.iter().any(|exp| exp.has_unresolved_division());
     let mut result: Vec<Exp> = Vec::new();
     for exp in flattened {
         if let Exp::Number(value) = exp {
             let truthy = num_truthy(value);
             if is_and && !truthy {
-                return Exp::Number(0.0);
-            }
-            if !is_and && truthy {
-                return Exp::Number(1.0);
+                if absorbs {
+                    return Exp::Number(0.0);
+                }
+                result.push(Exp::Number(0.0));
+            } else if !is_and && truthy {
+                if absorbs {
+                    return Exp::Number(1.0);
+                }
+                result.push(Exp::Number(1.0));
             }
             //identity constants are dropped
         } else {
@@ -730,8 +747,8 @@ impl Constraint {
     /// constant sub-expressions (`-2`, `0 - 2`, `1 + 1`) are plain numbers.
     pub(crate) fn normalized(self) -> Self {
         Self {
-            lhs: self.lhs.flatten().simplify(),
-            rhs: self.rhs.flatten().simplify(),
+            lhs: self.lhs.normal_form(),
+            rhs: self.rhs.normal_form(),
             ..self
         }
     }
